@@ -76,7 +76,7 @@ let parse_d dirty f (s : n list) : pr =
 let parse = parse_d dirty
 let sample_len needed l = l <= 2 || l >= needed - 1 || l = needed / 2 || l = 8 || l = 11
 
-let do_print mode (b : bm) =
+let do_print mode only (b : bm) =
   Printf.printf "P %s\n" (canon_string (abs b));
   List.iter (fun f ->
       match pieces f b with
@@ -108,7 +108,7 @@ let do_print mode (b : bm) =
               Printf.printf "b %c %d %d %08x %d\n" f l r (cksum buf) (if ok then 1 else 0)
             | None -> Printf.printf "b %c %d STORE-OOB\n" f l
         done)
-    ['h'; 'l'; 't']
+    (List.filter (fun f -> only = ' ' || only = f) ['h'; 'l'; 't'])
 
 let do_parse f (s : n list) =
   print_string "S\n";
@@ -139,7 +139,7 @@ let () =
       (match toks with
        | "P" :: mode :: inf :: ws ->
          let ws = if ws = [] then ["0"] else ws in
-         do_print mode.[0] { bm_words = List.map n_of_hex ws; bm_inf = (inf = "1") }
+         do_print mode.[0] (if String.length mode > 1 then mode.[1] else ' ') { bm_words = List.map n_of_hex ws; bm_inf = (inf = "1") }
        | ["S"; f; h] -> do_parse f.[0] (bytes_of_hex h @ [N0])
        | ["S"; f] -> do_parse f.[0] [N0]
        | ["T"; base; h] -> do_strto (int_of_string base) (bytes_of_hex h @ [N0])
